@@ -230,7 +230,7 @@ def GCtx.items (G : GCtx) : List PoolItem :=
   (G.consts.map fun e => PoolItem.const e.1 e.2) ++ (G.strs.map fun e => PoolItem.str e.1 e.2)
 
 /-- The same program context without its arrays (for facts that do not depend on them). -/
-def GCtx.noArr (G : GCtx) : GCtx := { G with asize := fun _ => 0 }
+def GCtx.noArr (G : GCtx) : GCtx := { G with asize := fun _ => 0, strs := [] }
 
 theorem KOf_S (G : GCtx) (pi : PInfo) (sp dep : Nat) (hi : Nat → Word) : (KOf G pi sp dep hi).S = G.S pi := rfl
 
@@ -245,6 +245,8 @@ structure GRep (G : GCtx) (σ : X.St) (mem : Mem) : Prop where
   acells : ∀ id cells, σ.arrays[id]? = some cells → cells.size = G.asize id ∧
     ∀ idx w, cells[idx]? = some (some w) → mem.read (G.abase id + idx) = w
   consts : ∀ v l j k, (v, l) ∈ G.consts → G.env.ds[j]? = some (.label k l) → mem.read (G.env.addr j / 4) = IAm.W v
+  strs : ∀ l bs ws j k, (l, bs) ∈ G.strs → X.packString bs = .ok ws → G.env.ds[j]? = some (.label k l) →
+    ∀ idx (h : idx < ws.length), mem.read (G.env.addr j / 4 + idx) = ws[idx]
 
 def PInfo.lnames (pi : PInfo) : List String := pi.p.formals.map X.Formal.name ++ pi.p.locals.map X.Decl.name
 
@@ -293,6 +295,9 @@ structure GCtx.OK (G : GCtx) : Prop where
   addr_lt : ∀ j k n, G.env.ds[j]? = some (.label k n) → G.env.addr j < 2 ^ 32
   const_lo : ∀ v l j k, (v, l) ∈ G.consts → G.env.ds[j]? = some (.label k l) → G.env.addr j / 4 < G.lo
   arr_hi : ∀ id, G.asize id ≠ 0 → G.spv + 2 < G.abase id ∧ G.abase id + G.asize id ≤ memWords
+  str_ok : ∀ l bs ws, (l, bs) ∈ G.strs → X.packString bs = .ok ws →
+    ∃ j k, G.env.ds[j]? = some (.label k l) ∧ G.env.addr j % 4 = 0 ∧ 2 ≤ G.env.addr j / 4 ∧
+      G.env.addr j / 4 + ws.length ≤ G.lo
   arr_disj : ∀ id1 id2, id1 ≠ id2 → G.asize id1 ≠ 0 → G.asize id2 ≠ 0 →
     G.abase id1 + G.asize id1 ≤ G.abase id2 ∨ G.abase id2 + G.asize id2 ≤ G.abase id1
 
